@@ -20,6 +20,8 @@ LM = [(r"global_deviation_from_north\(", "G"), (r"angle_with_building_north$", "
       (r"^ok_or_else\(find\(slice::iter\(bdl\.spaces\).*\)\?\.z$", "sz"), (r"^ok_or_else\(find\(slice::iter\(bdl\.spaces\).*\)\?\.height$", "sh")]
 CM = {"orientation_bdl_to_52016": "conv", "to_radians": "rad", "to_degrees": "deg", "normalize": "normalize"}
 
+from ..mir import callee_name
+
 
 def point_coords(n):
     n = strip(n)
@@ -64,6 +66,37 @@ def check_wall(ctx, prog, rule="c03.formula"):
     lm = LeafMap({}, LM)
     compare(ctx, rule, rule + "|wall.azimuth", fl["azimuth"], "r2(conv(G + As + Aw))", lm, CM, f.loc(ln), "wall azimuth")
     compare(ctx, rule, rule + "|wall.tilt", fl["tilt"], "r2(T)", lm, CM, f.loc(ln), "wall tilt")
+    # the other half of `G + As + Aw`: Aw is computed by the parser (compute_wall_angle_with_space_north) and has to be relative to the space, i.e. must not
+    # itself contain the space's rotation in its floor (As) nor the global deviation - the sum above adds each of them exactly once
+    hf = [g for g in prog.fns.values() if g.crate == "hulc" and g.root == g.id and g.path.endswith("::compute_wall_angle_with_space_north")]
+    ctx.require(len(hf) == 1, "hulc: compute_wall_angle_with_space_north not found (%d)" % len(hf))
+    hf = hf[0]
+    reads, nnodes = [], 0
+    for g in [hf] + prog.closures_of(hf):
+        gsc = Scope(prog, g)
+        for b, i, st in g.body.statements():
+            if st["s"] == "assign":
+                try:
+                    txt = show(gsc.rvalue(st["rv"]))
+                except Exception:
+                    continue
+                nnodes += 1
+                for fld in ("angle_with_building_north", "global_deviation", "angle_with_true_north"):
+                    if fld in txt:
+                        reads.append((fld, st.get("ln")))
+        for b, t in g.body.calls():
+            txt = " ".join(show(gsc.operand(a)) for a in t["args"]) + " " + (callee_name(t) or "")
+            nnodes += 1
+            for fld in ("angle_with_building_north", "global_deviation", "angle_with_true_north"):
+                if fld in txt:
+                    reads.append((fld, t.get("ln")))
+    ctx.floor(rule, "compute_wall_angle_with_space_north: values read", nnodes, 10)
+    key = rule + "|wall.angle_with_space_north|space-relative"
+    if reads:
+        ctx.violation(rule, key, "the wall's angle *with its space's north* is computed from %s: wall_geometry adds the space's rotation and the global deviation "
+                      "to it again (G + As + Aw), so that angle is counted twice for walls of a space turned inside its floor" % reads[0][0], hf.loc(reads[0][1]))
+    else:
+        ctx.ok(rule, key, "Aw is computed from the wall and the outline of its space only; As and G enter the azimuth once, in wall_geometry", hf.loc())
     pos = strip(fl["position"])
     if pos[0] == "agg" and pos[1].endswith("Some"):
         pos = strip(pos[3][0])
